@@ -4,6 +4,7 @@ import (
 	"encoding/base64"
 	"encoding/json"
 	"fmt"
+	"sort"
 	"strings"
 	"time"
 
@@ -794,10 +795,61 @@ func C15(c *vlib.Ctx) {
 				goto probes
 			}
 		}
+		c15Deliverable(c, a, ci, backend)
 		a.Close()
 	}
 	c.Set("accepted_batches", acceptedBatches)
 	if acceptedBatches == 0 {
 		c.Inconclusive("C15: no batch was accepted (vacuous run)")
+	}
+}
+
+// c15Deliverable: at the end of a session of accepted and refused publishes every message the
+// listing shows as queued and due must actually be handed out by dequeues on its (route, target):
+// a refused batch that "changed nothing" according to the listing but left a message that is
+// never offered again did change the queue.
+func c15Deliverable(c *vlib.Ctx, a *l2.App, ci int, backend string) {
+	now := time.Now()
+	all, err := vlib.ListAll(a.Store)
+	if err != nil {
+		return
+	}
+	type rt struct{ route, target string }
+	must := map[rt]map[string]bool{}
+	for _, e := range all {
+		if e.State == queue.StateQueued && !e.NextRunAt.After(now) {
+			k := rt{e.Route, e.Target}
+			if must[k] == nil {
+				must[k] = map[string]bool{}
+			}
+			must[k][e.ID] = true
+		}
+	}
+	for k, ids := range must {
+		got := map[string]bool{}
+		for round := 0; round < 40; round++ {
+			resp, err := a.Store.Dequeue(queue.DequeueRequest{Route: k.route, Target: k.target, Batch: 100, LeaseTTL: time.Hour})
+			if err != nil || len(resp.Items) == 0 {
+				break
+			}
+			for _, it := range resp.Items {
+				got[it.ID] = true
+			}
+		}
+		c.Count("evaluations", 1)
+		c.Count("end_of_session_drains", 1)
+		c.Count("end_of_session_messages_due", int64(len(ids)))
+		var missing []string
+		for id := range ids {
+			if !got[id] {
+				missing = append(missing, id)
+			}
+		}
+		if len(missing) > 0 {
+			sort.Strings(missing)
+			c.Violation(vlib.Signature{"class": "listed_queued_but_never_offered", "backend": backend},
+				fmt.Sprintf("after the publish session on %s %d message(s) of %s -> %s are listed as queued and due but no dequeue hands them out (e.g. %s); %d were handed out", backend, len(missing), k.route, k.target, missing[0], len(got)),
+				map[string]any{"config_index": ci, "route": k.route, "target": k.target, "missing": missing[:minInt(len(missing), 10)]})
+		}
 	}
 }
